@@ -21,7 +21,7 @@ PROFILE = {
     'async_handlers': False,
 }
 
-FIXED = ['2["*","s1","x"]', '2/a,7["*","s0"]', '2["*"]', 'x', '9', '4"err"', '2', '2[]', '2{"a":1}', '2"msg"', '2[["a"]]', '2[{"a":1},2]', '2[5]', '2[null,1]',
+FIXED = ['2["*","victim-sid","x"]', '2/a,7["*","other-sid"]', '2["*"]', 'x', '9', '4"err"', '2', '2[]', '2{"a":1}', '2"msg"', '2[["a"]]', '2[{"a":1},2]', '2[5]', '2[null,1]',
          '3', '31', '31{"a":1}', '31"ab"', '31 5', '51-["msg",{"_placeholder":true,"num":5}]',
          '51-["msg",{"_placeholder":true,"num":-1}]', '51-["msg",{"_placeholder":true,"num":"0"}]',
          '51-{"_placeholder":true,"num":0}', '59999999999-["msg"]', '510000000000-["msg"]', '5-["msg"]',
